@@ -197,7 +197,7 @@ static const int CLENS[10] = {0, 1, 2, 15, 16, 17, 31, 32, 33, 49};
 static uint8_t IVS[24][16]; static int nivs;
 static uint64_t ctr_seqs;
 
-static void ctr_sequence(int cls, int iv, const int *seq, int n)
+static void ctr_sequence(int cls, int iv, const int *seq, int n, int rekey_after)
 {
     CTRCommon *a = ctr_of(cls); CtrObj co; static uint8_t in[256], oa[256], oc[256]; size_t pos = 0; int i; bool ok = true;
     arena_reset(); memset(&co, 0, sizeof(co));
@@ -213,15 +213,20 @@ static void ctr_sequence(int cls, int iv, const int *seq, int n)
         a->encrypt(oa + pos, in + pos, (size_t)seq[i]);
         ctr_encrypt(CK_S128, &co, oc + pos, in + pos, (size_t)seq[i]);
         pos += (size_t)seq[i];
+        if (i == rekey_after) {
+            /* key change in the middle of the stream, no new IV: both sides must continue the same way */
+            ok &= a->setKey(KEYS[!(cls & 1)], (size_t)CTR_KLEN[cls]);
+            if (CTR_TWEAKED[cls]) ctr_set_tweaked_key(CK_S128, &co, KEYS[!(cls & 1)], (unsigned)CTR_KLEN[cls]); else ctr_set_key(CK_S128, &co, KEYS[!(cls & 1)], (unsigned)CTR_KLEN[cls], 0);
+        }
     }
     ctr_cleanup(CK_S128, &co);
     ++ctr_seqs; ++g_cnt.evaluations;
     distinct_add_u64(fnv1a(oa, pos, fnv1a(seq, sizeof(int) * (size_t)n, (uint64_t)(cls * 100 + iv))));
     if (!ok || memcmp(oa, oc, pos) != 0) {
-        char sig[160], cd[200]; size_t o = (size_t)snprintf(cd, sizeof(cd), "c19c %d %d", cls, iv), d = 0;
+        char sig[160], cd[200]; size_t o = (size_t)snprintf(cd, sizeof(cd), "c19c %d %d %d", cls, iv, rekey_after), d = 0;
         for (i = 0; i < n; ++i) o += (size_t)snprintf(cd + o, sizeof(cd) - o, " %d", seq[i]);
         while (d < pos && oa[d] == oc[d]) ++d;
-        snprintf(sig, sizeof(sig), "C19/CTR<%s>/%s", VNAME[cls], ok ? "stream" : "return-values");
+        snprintf(sig, sizeof(sig), "C19/CTR<%s>/%s", VNAME[cls], !ok ? "return-values" : (rekey_after >= 0 ? "stream-after-mid-stream-setKey" : "stream"));
         violation(sig, cd, "CTR<%s> with IV %s: %s (first differing byte %zu of %zu)", VNAME[cls], hexs(IVS[iv], 16),
                   ok ? "output differs from skinny128_ctr_encrypt on the generic back end" : "setKey/setIV return values wrong", d, pos);
     }
@@ -230,7 +235,8 @@ static void ctr_sequence(int cls, int iv, const int *seq, int n)
 static void ctr_dfs(int cls, int iv, int *seq, int n, int consumed, int maxd)
 {
     int i;
-    if (n > 0) ctr_sequence(cls, iv, seq, n);
+    if (n > 0) ctr_sequence(cls, iv, seq, n, -1);
+    if (n >= 2) ctr_sequence(cls, iv, seq, n, 0);
     if (n >= maxd || consumed > 50) return;
     for (i = 0; i < 10; ++i) { seq[n] = CLENS[i]; ctr_dfs(cls, iv, seq, n + 1, consumed + CLENS[i], maxd); }
 }
@@ -244,9 +250,9 @@ static void run_ctr(void)
     for (k = 1; k < 16; ++k) { memset(IVS[nivs], 0, 16); memset(IVS[nivs] + 16 - k, 0xFF, (size_t)k); ++nivs; }
     memset(IVS[nivs], 0xFF, 16); IVS[nivs++][15] = 0xFE;
     if (g_opts.replay) {
-        int n = 0; const char *p = g_opts.replay + 5; cls = atoi(p); p = strchr(p, ' ') + 1; iv = atoi(p);
+        int n = 0, rk; const char *p = g_opts.replay + 5; cls = atoi(p); p = strchr(p, ' ') + 1; iv = atoi(p); p = strchr(p, ' ') + 1; rk = atoi(p);
         while ((p = strchr(p, ' ')) != NULL) { ++p; seq[n++] = atoi(p); if (n >= 8) break; }
-        ctr_sequence(cls, iv, seq, n);
+        ctr_sequence(cls, iv, seq, n, rk);
         return;
     }
     for (cls = 0; cls < 5; ++cls) for (iv = 0; iv < nivs; ++iv, ++job) {
